@@ -186,7 +186,7 @@ func containsNodeDepth(root ast.Node, f func(ast.Node) bool, depth int, seen map
 // ! normalised, conjunctions split) and the loop headers. Variables are named
 // by parameter position or by declaration order inside the slice, so renaming
 // them changes nothing. The result is a sorted list of lines.
-func sliceTable(p pkgT, fd *ast.FuncDecl, seeds []string) []string {
+func sliceTable(p pkgT, fd *ast.FuncDecl, seeds []string, seedObjs ...types.Object) []string {
 	type effect struct {
 		stmt   ast.Stmt
 		lhs    []types.Object
@@ -289,6 +289,11 @@ func sliceTable(p pkgT, fd *ast.FuncDecl, seeds []string) []string {
 	}
 	for _, s := range seeds {
 		if o := byName[s]; o != nil {
+			tracked[o] = true
+		}
+	}
+	for _, o := range seedObjs {
+		if o != nil {
 			tracked[o] = true
 		}
 	}
